@@ -64,6 +64,17 @@ fn get_mut<'a>(v: &'a mut Value, path: &[Step]) -> Option<&'a mut Value> {
     Some(cur)
 }
 
+fn get<'a>(v: &'a Value, path: &[Step]) -> Option<&'a Value> {
+    let mut cur = v;
+    for s in path {
+        cur = match s {
+            Step::Key(k) => cur.get(k.as_str())?,
+            Step::Idx(i) => cur.get(*i)?,
+        };
+    }
+    Some(cur)
+}
+
 /// Near-collision rewrite of a string.
 fn edit_string(s: &str, kind: u8, arg: &str) -> String {
     match kind % 16 {
@@ -125,7 +136,25 @@ pub fn apply_edit(v: &Value, e: &TreeEdit) -> Option<(Value, String)> {
     if all.is_empty() {
         return None;
     }
-    let i = (e.site as usize * all.len()) >> 16;
+    let mut i = (e.site as usize * all.len()) >> 16;
+    let mut forced_kind = e.kind;
+    if e.site == u16::MAX {
+        // dedicated site: the (kind/2)-th MATCH rule of the document, optional-clause toggle
+        let rules: Vec<usize> = all
+            .iter()
+            .enumerate()
+            .filter(|(_, (p, k))| {
+                matches!(k, SiteKind::Arr)
+                    && get(v, p).and_then(|a| a.as_array()).and_then(|a| a.first()).and_then(|x| x.as_str()).map(|x| x.eq_ignore_ascii_case("MATCH")).unwrap_or(false)
+            })
+            .map(|(i, _)| i)
+            .collect();
+        if !rules.is_empty() {
+            i = rules[(e.kind as usize / 2) % rules.len()];
+            forced_kind = 200 + e.kind % 2;
+        }
+    }
+    let e = &TreeEdit { site: e.site, kind: forced_kind, arg: e.arg.clone() };
     let (path, kind) = all[i].clone();
     let mut out = v.clone();
     let describe = |p: &Vec<Step>| {
@@ -220,6 +249,24 @@ pub fn apply_edit(v: &Value, e: &TreeEdit) -> Option<(Value, String)> {
         }
         SiteKind::Arr => {
             let arr = get_mut(&mut out, &path)?.as_array_mut()?;
+            // MATCH rules: toggle an *empty* optional `IN <prefix>` clause (kinds 200..)
+            if e.kind >= 200 && arr.first().and_then(|x| x.as_str()).map(|x| x.eq_ignore_ascii_case("MATCH")).unwrap_or(false) {
+                let anchor = if e.kind % 2 == 0 { "WITH" } else { "FROM" };
+                if let Some(pos) = arr.iter().position(|x| x.as_str().map(|x| x.eq_ignore_ascii_case(anchor)).unwrap_or(false)) {
+                    let has_empty_in = pos >= 2 && arr[pos - 1].as_str() == Some("") && arr[pos - 2].as_str().map(|x| x.eq_ignore_ascii_case("IN")).unwrap_or(false);
+                    let has_in = pos >= 2 && arr[pos - 2].as_str().map(|x| x.eq_ignore_ascii_case("IN")).unwrap_or(false);
+                    if has_empty_in {
+                        arr.remove(pos - 1);
+                        arr.remove(pos - 2);
+                        return finish(out, v, format!("match-empty-prefix-removed@{}", describe(&path)));
+                    } else if !has_in {
+                        arr.insert(pos, Value::String(String::new()));
+                        arr.insert(pos, Value::String("IN".into()));
+                        return finish(out, v, format!("match-empty-prefix-added@{}", describe(&path)));
+                    }
+                }
+            }
+            let arr = get_mut(&mut out, &path)?.as_array_mut()?;
             match e.kind % 5 {
                 0 => {
                     if arr.is_empty() {
@@ -283,8 +330,15 @@ pub fn apply_edit(v: &Value, e: &TreeEdit) -> Option<(Value, String)> {
     Some((out, what))
 }
 
+fn finish(out: Value, v: &Value, what: String) -> Option<(Value, String)> {
+    if &out == v {
+        return None;
+    }
+    Some((out, what))
+}
+
 pub fn tree_edit() -> BoxedStrategy<TreeEdit> {
-    (any::<u16>(), any::<u8>(), prop_oneof![Just(String::new()), Just("n".to_string()), Just("\\".to_string()), Just("/x".to_string())])
+    (prop_oneof![11 => any::<u16>(), 1 => Just(u16::MAX)], any::<u8>(), prop_oneof![Just(String::new()), Just("n".to_string()), Just("\\".to_string()), Just("/x".to_string())])
         .prop_map(|(site, kind, arg)| TreeEdit { site, kind, arg })
         .boxed()
 }
